@@ -517,12 +517,26 @@ class GenericInterp(Interp):
                     if v.k == 'var':
                         env[v.get('lid')] = Opaque(('elem', _freeze(rng)))
             body = s.c[7]
+        if self.loop_carried and body is not None:
+            # an arbitrary iteration: a variable declared before the loop and assigned in it may hold the value of any earlier iteration
+            for x in body.walk():
+                tgt = None
+                if x.k == 'assign' or (x.k == 'call' and x.get('op') in ('=', '+=', '-=', '*=', '/=')):
+                    tgt = unwrap(x.c[0]) if x.c and x.c[0] is not None else None
+                elif x.k == 'unop' and x.get('op') in ('++', '--'):
+                    tgt = unwrap(x.c[0]) if x.c and x.c[0] is not None else None
+                if tgt is not None and tgt.k == 'ref' and tgt.decl.get('lid') in env and not isinstance(env.get(tgt.decl.get('lid')), Opaque):
+                    declared_inside = any(v.k == 'var' and v.get('lid') == tgt.decl.get('lid') for v in s.walk())
+                    if not declared_inside:
+                        env[tgt.decl.get('lid')] = Opaque(('carried', tgt.decl.get('name')))
         try:
             self.ex(body, env)
         except _Break:
             pass
         except _Continue:
             pass
+
+    loop_carried = False
 
     def assume(self, cond, env):
         """evaluate a condition known to hold: its free atoms are fixed to the satisfying side where the
